@@ -427,7 +427,7 @@ def r_fresh(ctx):
         msg = ("a new wrapper is constructed on every call before the solve root runs" if ok else
                "the wrapper handed to the solve root is not constructed on every path of this call (definitions: %s)"
                % [norm_stmt(s0)[:60] for s0 in defs])
-    ctx.ob("R-FRESH", "PEP.%s::new-wrapper-per-solve" % entry.name, ok, msg, loc(entry, call))
+    ctx.ob_or_program(("entry",), "R-FRESH", "PEP.%s::new-wrapper-per-solve" % entry.name, ok, msg, loc(entry, call))
     # 2. tracking lists and objective leaf are rebound before the first send
     ctx.unit(qualname(root))
     sends = [c for c in ast.walk(root) if isinstance(c, ast.Call) and call_name(c) in ("send_constraint_to_solver", "send_lmi_constraint_to_solver")]
